@@ -58,8 +58,11 @@ def gen_pipeline(rng, kinds, allow_zip=True, two_async=0.3, sink_async=0.7, p_zi
     nodes = [{"kind": "source", "ups": []}]
     if allow_zip and rng.random() < p_zip:
         nodes.append({"kind": "source", "ups": []})
-        nodes.append({"kind": "zipmax", "ups": [0, 1], "maxsize": rng.choice([1, 2])})
-        last = 2
+        if rng.random() < 0.4:
+            nodes.append({"kind": "source", "ups": []})
+        k = len(nodes)
+        nodes.append({"kind": "zipmax", "ups": list(range(k)), "maxsize": rng.choice([1, 2])})
+        last = k
     else:
         last = 0
         n_async = 2 if rng.random() < two_async else 1
